@@ -331,7 +331,12 @@ func (w *world) exec(line string) string {
 			return "error:" + hx.Hex(err.Error())
 		}
 		w.sils = append(w.sils, s.Id)
-		c := w.waitSpread(func(n *node) bool { return n.hasSil(s.Id) })
+		// an oversized update is sent reliably to every member, at once: nothing random to wait out
+		wait := w.waitSpread
+		if t[2] == "big" {
+			wait = w.waitAll
+		}
+		c := wait(func(n *node) bool { return n.hasSil(s.Id) })
 		return w.seen(c)
 	case "nfl":
 		i, _ := strconv.Atoi(t[1])
@@ -348,7 +353,11 @@ func (w *world) exec(line string) string {
 			return "error:" + hx.Hex(err.Error())
 		}
 		w.gkeys = append(w.gkeys, gk)
-		c := w.waitSpread(func(n *node) bool { return n.hasLog(gk) })
+		wait := w.waitSpread
+		if t[2] == "big" {
+			wait = w.waitAll
+		}
+		c := wait(func(n *node) bool { return n.hasLog(gk) })
 		return w.seen(c)
 	case "fact":
 		return appSetupOrder()
